@@ -69,6 +69,13 @@ func checkC03(r *Run) {
 	c03Readmsg(r, rm)
 	c03ReadFcall(r, rf, rm)
 	c02OverflowExposed(r)
+	// the inbound Tread clamp is maybeTruncate's Tread clause: C03 relies on it lowering every count whose largest
+	// reply would not fit (rules shared with C02)
+	if mt := r.P.Fn("p9p:(*channel).maybeTruncate"); mt != nil {
+		c02Truncate(r, mt)
+	} else {
+		r.Undecided("anchor", "(*channel).maybeTruncate", token.NoPos, "anchor function not found")
+	}
 	// the overflow test and the discard compare the frame length with len(ch.rdbuf): both are right only while
 	// len(rdbuf) == msize, which newChannel establishes and SetMSize must preserve on every path
 	if sm, nc := r.P.Fn("p9p:(*channel).SetMSize"), r.P.Fn("p9p:newChannel"); sm != nil && nc != nil {
